@@ -251,7 +251,7 @@ def shipped(ctx, seeds, steps):
 
 def run(ctx):
     from .. import custom_objects
-    custom_objects.enable(curtain=True)  # user-defined object types join the generators' pool (flags, not types, must decide)
+    custom_objects.enable(cleats=True, curtain=True)  # user-defined object types join the generators' pool (flags, not types, must decide)
     with reach(ctx, [observation_fs.from_visibility, grid_mod.Grid.subgrid, grid_mod.Grid.__mul__]):
         exhaustive(ctx)
         random_cases(ctx, ctx.pick(500, 12000))
@@ -263,7 +263,7 @@ def run(ctx):
 
 def replay(ctx, kind, payload):
     from .. import custom_objects
-    custom_objects.enable(curtain=True)
+    custom_objects.enable(cleats=True, curtain=True)
     state = enc.state_from_json(payload['state'])
     area = obsgen.area_from_json(payload['area'])
     if 'hist_key' in payload:  # state reached through the real dynamics: regenerate that history
